@@ -173,6 +173,38 @@ def _none_guard(test: ast.expr, truth: bool):
     return None
 
 
+def _same_stretch_defs(rd: "ReachingDefs", node: Node, name: str) -> List[Def]:
+    """definitions of *name* made in the straight-line stretch around *node* (no branching in between), nearest first"""
+    def normal_succ(n):
+        ss = [s for s, l in n.succ if l != "exc"]
+        return ss[0] if len(ss) == 1 else None
+
+    def normal_pred(n):
+        ps = [p for p in n.pred if any(s is n and l != "exc" for s, l in p.succ)]
+        if len(ps) != 1:
+            return None
+        p = ps[0]
+        return p if len([s for s, l in p.succ if l != "exc"]) == 1 else None
+    out = []
+    cur = node
+    for _ in range(6):
+        cur = normal_succ(cur) if cur is not None else None
+        if cur is None or cur.kind in ("test", "for_iter", "return", "raise"):
+            break
+        out += [e for e in rd.defs_at.get(cur, []) if e.name == name]
+        if out:
+            return out[:1]
+    cur = node
+    for _ in range(6):
+        cur = normal_pred(cur) if cur is not None else None
+        if cur is None or cur.kind in ("test", "for_iter"):
+            break
+        hit = [e for e in rd.defs_at.get(cur, []) if e.name == name]
+        if hit:
+            return hit[:1]
+    return []
+
+
 def _prune_correlated(fn: FunctionInfo, rd: "ReachingDefs", defs: List[Def], at: Node) -> List[Def]:
     """Drop definitions that cannot be the live one at *at* because a sibling variable assigned together with them
     (`item, tree = value, None` in one branch, `item, tree = make(), value` in the other) contradicts a test every
@@ -244,8 +276,13 @@ def _prune_correlated(fn: FunctionInfo, rd: "ReachingDefs", defs: List[Def], at:
             for yname, (fact, t) in facts.items():
                 if yname == d.name:
                     continue
-                # the definition of y in force right after d.node
-                ys = [e for e in rd.defs_at.get(d.node, []) if e.name == yname] or [e for e in rd.reaching(d.node, yname)]
+                # the definition of y in force right after d.node: made by the same statement, or by a neighbour in the same
+                # straight-line stretch (`item = value` / `tree = None` written as two statements)
+                ys = [e for e in rd.defs_at.get(d.node, []) if e.name == yname]
+                if not ys:
+                    ys = _same_stretch_defs(rd, d.node, yname)
+                if not ys:
+                    ys = [e for e in rd.reaching(d.node, yname)]
                 if len(ys) != 1:
                     continue
                 e = ys[0]
